@@ -509,3 +509,53 @@ Definition sym_g_cap := g_cap hs HPair HPad HBlock HSeg ub sym_ueb_hash UbOk.
 Definition sym_g_share := g_share hs HPair HPad HBlock HSeg ub UbOk.
 
 Definition gres_class (r : gres) : N := match r with GBlock _ => 0%N | GErr e => verr_class e end.
+
+(* ---- helpers for the harness (comparisons, a table-driven decoder) ------------------------------- *)
+Fixpoint nblocks_eqb (a b : list (N * list N)) : bool :=
+  match a, b with
+  | [], [] => true
+  | (i, x) :: r, (j, y) :: s => (i =? j)%N && ln_eqb x y && nblocks_eqb r s
+  | _, _ => false
+  end.
+
+(* CRSDecoder.decode as a finite table: the harness lists, for the block sets the real decoder can be
+   handed in the case at hand, the (padded) segment the real zfec produced; anything else decodes to
+   nothing (and then fails the crypttext hash check) *)
+Fixpoint table_dec (tbl : list (list (N * list N) * list N)) (k n : N) (blocks : list (N * list N)) : list (list N) :=
+  match tbl with
+  | [] => []
+  | (key, seg) :: r => if nblocks_eqb key blocks then [seg] else table_dec r k n blocks
+  end.
+
+Definition hpairs_sub (a b : list (Z * hs)) : bool :=
+  forallb (fun p => match zassoc (fst p) b with Some h => hs_eqb h (snd p) | None => false end) a.
+Definition hpairs_eqb (a b : list (Z * hs)) : bool := hpairs_sub a b && hpairs_sub b a.
+Definition ub_eqb (a b : ub) : bool := hs_eqb (sym_ueb_hash a) (sym_ueb_hash b).
+Definition off_eqb (a b : offsets) : bool :=
+  (o_data a =? o_data b)%N && (o_plaintext_hash_tree a =? o_plaintext_hash_tree b)%N &&
+  (o_crypttext_hash_tree a =? o_crypttext_hash_tree b)%N && (o_block_hashes a =? o_block_hashes b)%N &&
+  (o_share_hashes a =? o_share_hashes b)%N && (o_uri_extension a =? o_uri_extension b)%N.
+Definition zblocks_sub (a b : list (Z * list N)) : bool :=
+  forallb (fun p => match zassoc (fst p) b with Some d => ln_eqb d (snd p) | None => false end) a.
+Definition share_eqb (a b : share hs ub) : bool :=
+  (s_version a =? s_version b)%N && off_eqb (s_off a) (s_off b) &&
+  match s_ueb a, s_ueb b with Some x, Some y => ub_eqb x y | None, None => true | _, _ => false end &&
+  match s_share_hashes a, s_share_hashes b with Some x, Some y => hpairs_eqb x y | None, None => true | _, _ => false end &&
+  hpairs_eqb (s_block_hashes a) (s_block_hashes b) && hpairs_eqb (s_ct_hashes a) (s_ct_hashes b) &&
+  zblocks_sub (s_blocks a) (s_blocks b) && zblocks_sub (s_blocks b) (s_blocks a).
+
+Definition optn_eqb (a b : option N) : bool :=
+  match a, b with Some x, Some y => (x =? y)%N | None, None => true | _, _ => false end.
+Definition opt3_eqb (a b : option (N * N * N)) : bool :=
+  match a, b with
+  | Some (a1, a2, a3), Some (b1, b2, b3) => (a1 =? b1)%N && (a2 =? b2)%N && (a3 =? b3)%N
+  | None, None => true
+  | _, _ => false
+  end.
+Definition ueb_eqb (a b : ueb hs) : bool :=
+  (u_segment_size a =? u_segment_size b)%N && hs_eqb (u_crypttext_root a) (u_crypttext_root b) &&
+  hs_eqb (u_share_root a) (u_share_root b) && Bool.eqb (u_codec_ok a) (u_codec_ok b) &&
+  opt3_eqb (u_codec_params a) (u_codec_params b) && opt3_eqb (u_tail_codec_params a) (u_tail_codec_params b) &&
+  optn_eqb (u_num_segments a) (u_num_segments b) && optn_eqb (u_size a) (u_size b) &&
+  optn_eqb (u_needed_shares a) (u_needed_shares b) && optn_eqb (u_total_shares a) (u_total_shares b) &&
+  optn_eqb (u_crypttext_hash_len a) (u_crypttext_hash_len b).
